@@ -209,6 +209,8 @@ func bindNames(as []Assign) []string {
 	return out
 }
 
+var outOfDomainF4Toggle bool
+
 func outOfDomainElem(kind string) (model.Elem, bool) {
 	switch kind {
 	case model.I1:
@@ -224,7 +226,12 @@ func outOfDomainElem(kind string) (model.Elem, bool) {
 	case model.U4:
 		return model.Elem{U: 1 << 32}, true
 	case model.F4:
-		return model.Elem{F: math.Float64bits(1e39)}, true
+		// alternately far outside and just outside (the next float64 after MaxFloat32)
+		outOfDomainF4Toggle = !outOfDomainF4Toggle
+		if outOfDomainF4Toggle {
+			return model.Elem{F: math.Float64bits(math.Nextafter(math.MaxFloat32, math.Inf(1)))}, true
+		}
+		return model.Elem{F: math.Float64bits(-1e39)}, true
 	case model.F8:
 		return model.Elem{F: math.Float64bits(math.Inf(1))}, true
 	}
@@ -281,7 +288,7 @@ func genC09(t *rapid.T) c09Case {
 			switch choose() {
 			case 0, 3, 4:
 				lo, hi := x.AVar.Min, x.AVar.Max
-				if hi == -1 {
+				if hi == -1 || hi > lo+40 {
 					hi = lo + 6
 				}
 				n := rapid.IntRange(lo, hi).Draw(t, "slen")
@@ -296,7 +303,7 @@ func genC09(t *rapid.T) c09Case {
 				switch {
 				case x.AVar.Min > 0:
 					s = string(bytes.Repeat([]byte{'q'}, x.AVar.Min-1))
-				case x.AVar.Max != -1:
+				case x.AVar.Max != -1 && x.AVar.Max < 100000:
 					s = string(bytes.Repeat([]byte{'q'}, x.AVar.Max+1))
 				default:
 					s = "café"
